@@ -4,52 +4,68 @@ The implementation's argument for schedule independence is structural: futures a
 workers only fulfil them, the consumer takes them FIFO, waits on each, and unwinds nested buffers oldest first.  Each link
 is a shape of the resolved program; this module decides the links, never the behaviour under schedules.
 
-who-may-call (single producer)
+who-may-call (single producer)                                                                       [DESIGN 5/C05 clause 1]
  W1 pool-task-never-enqueues      nothing reachable from operator() of a functor type handed to Pool::submit puts anything
                                   on a queue of futures (workers only fulfil)
  W2 queue-producer-role           every enqueue on a queue of futures (Queue<future<T>>::push, add_to_queue,
                                   add_end_of_data_to_queue) is written in the producer class of that queue: Parser hierarchy
                                   for Buffer, ReadThreadManager for raw input strings
- W2 thread-enqueues-only-its-queue   parser thread reaches only Buffer enqueues, read thread only string enqueues, pool
-                                  worker and the consumer side (Reader's own methods) none
- W3 one-parser-thread             the Reader constructor starts exactly one parser thread, not in a loop
-push precedes work
+ W2 thread-enqueues-only-its-queue   exactly one thread entry point (found by role: argument of a thread construction) reaches
+                                  enqueues on each reader-side queue, no entry feeds both, the consumer side (Reader's own
+                                  methods) feeds none
+ W3 one-parser-thread             the function that starts the Buffer-producing thread starts it once, not in a loop
+push precedes work                                                                                                 [clause 2]
  O1 submit-future-enqueued-directly   the future returned by Pool::submit in a parser is the argument of the enqueue (or a
                                   local that is enqueued on every path before the next iteration): no reordering container
  O1 one-enqueue-per-blob          between two constructions of the blob decoder exactly one enqueue happens on every path
-FIFO monitor
+FIFO monitor                                                                                                       [clause 3]
  Q*  the C19 Queue rules, applied to the explicit Queue instantiations (incl. Queue<future<Buffer>>)
-consumer side
+consumer side                                                                                                      [clause 4]
  R1 back-buffers-drained-before-pop   Reader::read pops the queue only when the back-buffer member is empty (invalid)
  R2 last-nested-needs-nested      every Buffer::get_last_nested() call is guarded by has_nested_buffers() on the same buffer
+                                  (or on the buffer it was move-assigned from just before)
  R2 whole-buffer-only-without-nested  the back buffer is handed out as a whole only when it has no nested buffers left
  R3 popped-nested-buffer-stashed  a popped buffer is tested for nested buffers on every path to a data return; if it has some,
                                   it is moved to the back-buffer member and its deepest nested buffer is handed out
  R4 end-of-data-marks-eof / pop-only-in-status-okay   the end-of-data branch stores a status that the gate before the pop
                                   rejects, on every path to its return
  R5 wrapper-pop-returns-future-value  queue_wrapper::pop takes one element with wait_and_pop and returns get() of that future
- I1 iterator-refills-only-at-buffer-end   InputIterator::operator++ fetches the next buffer only when the current one is used up
+ R6 end-marker-is-invalid-buffer  at_end_of_data(Buffer) is `!buffer` and Buffer::operator bool tests the data pointer only: a valid
+                                  buffer without data (block with nothing selected) is not the end
+ I1 iterator-refills-only-at-buffer-end / iterator-skips-only-empty-buffers   InputIterator fetches the next buffer only when the
+                                  current one is used up, and re-reads only while the buffer read has no item of its type
 nested buffers (oldest first)
- B1 last-nested-walks-to-tail     get_last_nested() walks m_next_buffer in a loop until the node has no successor
- B2 grow-internal-chains-older    grow_internal() hangs the previous chain below the new nested buffer before linking it
+ B1 last-nested-walks-to-tail     get_last_nested() walks the nested link in a loop until the successor has no successor
+ B2 grow-internal-chains-older    grow_internal() hangs the previous chain below the buffer it splits off before linking it
  B3 nested-buffer-never-empty     grow_internal() runs only with committed data (Reader::read pops the next queue element when
-                                  the buffer it just took out of a nest is empty -- with blocks still waiting in the back buffer)
+                                  the buffer it just took out of a nest is empty -- with blocks still waiting in the back buffer;
+                                  that CFG path exists on the pristine tree and is infeasible only because of this invariant)
+ B4 move-keeps-nested-chain       Buffer's move constructor, move assignment and swap transfer the nested link
  F1 taken-nested-buffer-is-sent   a buffer taken out with get_last_nested() in a parser is enqueued on every path
- F2 run-flushes-final-buffer      every run() of a ParserWithBuffer subclass reaches flush_final_buffer() on all normal exits
- F3 final-flush-sends-whole-buffer  flush_final_buffer() enqueues the buffer member under no other condition than committed()>0
-entity mask / metadata (DISPATCH)
+ F2 run-flushes-final-buffer      every run() of a ParserWithBuffer subclass reaches the final flush on all normal exits
+ F3 final-flush-sends-whole-buffer  the method that enqueues the parser's buffer member does so under no other condition than
+                                  committed() != 0, once
+ F4 swapped-out-buffer-is-sent    a local Buffer that took over the parser buffer's contents (swap / move) is enqueued on every path
+entity mask / metadata (DISPATCH)                                                                                  [clause 5]
  M1 object-creation-guarded-by-entity-mask   every construction of a top-level object builder in the four decoders executes only
                                   under `read_types & osm_entity_bits::K` with K the builder's kind (locally or at every call site)
  M2 pbf-field-consumed-once       in every protozero message loop of the PBF reader each field is consumed (get_*/skip) exactly
                                   once before the next next(): an unselected field must be skipped
  M3 xml-builder-used-under-own-mask   XMLParser touches (sets / dereferences) a builder member only under the mask of its kind
  M4 read-meta-guards-only-metadata    a read_meta test selects between decoding and skipping metadata only: the `no` side either
-                                  just skips, or calls a sibling with the same object-content calls
+                                  just skips, or calls a sibling that makes the same object-content calls
+ M5 created-object-committed      every object built is committed on all normal paths (uncommitted data never reaches the consumer)
+ M6 read-options-forwarded        the entity mask / read_meta option is never replaced by a constant on its way from the Reader to the
+                                  decoders (constructor initialisers, arguments handed on, accessors)
 
 NOT decided: the schedules themselves; queue-size / pool-size independence beyond the links above; that flush_nested_buffer is
 called often enough (nested buffers travel with the final buffer anyway); that the per-format decoders decode the right
-*content* (C01/C02); case label <-> kind agreement of the format dispatchers (C02); reachability through expat's C callbacks
-(the who-may-call closure cannot see through XML_Parse, so W2's thread clause is decided for the resolved call graph only).
+*content* (C01/C02); case label <-> kind agreement of the format dispatchers (C02: a `case way:` that calls decode_node under
+the node mask is not seen here); reachability through expat's C callbacks (the who-may-call closure cannot see through
+XML_Parse, so the thread clause of W2 is decided for the resolved call graph only); the "status check precedes the pop" and
+catch-all handling of Reader::read beyond R4 (C07/S1,S2); add_to_queue's push-then-fulfil shape (C07/P1).
+Dropped from DESIGN 5/C05 clause 5: "the guarded region contains NOTHING but decode_info/dense-info reads" is decided in the
+weaker, exact form M4 (no object-content call on the metadata side; siblings agree on content calls).
 """
 from ..excflow import must_call, thread_starts
 from ..flow import describe_path, guards_of, path_search
@@ -133,13 +149,29 @@ def _elem(fn, nid):
     return el[i] if i < len(el) else None
 
 
-def _cond_block(fn, nid):
-    """Block whose two-way terminator condition contains node nid (or None)."""
+def _cond_tests(fn, pred):
+    """Two-way branches whose condition is pred-matching expression X, possibly under negations:
+    [(block, node id of X, successor taken when X is true, successor taken when X is false)]."""
+    out = []
     for b in fn.blocks.values():
-        if 'cond' in b and len(b['succs']) == 2 and b.get('termcls') != 'SwitchStmt':
-            if nid == b['cond'] or nid in fn.subtree(b['cond']):
-                return b
-    return None
+        if 'cond' not in b or len(b['succs']) != 2 or b.get('termcls') == 'SwitchStmt':
+            continue
+        cid = fn.strip(b['cond'])
+        neg = False
+        hops = 0
+        while cid is not None and hops < 6:
+            x = fn.nodes.get(cid)
+            if x is not None and x.get('k') == 'unop' and x.get('op') == '!':
+                neg = not neg
+                cid = fn.strip(x['sub'])
+                hops += 1
+            else:
+                break
+        x = fn.nodes.get(cid) if cid is not None else None
+        if x is not None and pred(x):
+            t, f = b['succs']
+            out.append((b, cid, f, t) if neg else (b, cid, t, f))
+    return out
 
 
 def _enqueuing(fb, fn, n, elem, memo):
@@ -335,6 +367,27 @@ def _flows_to(fn, nid, stop_calls):
     return None
 
 
+def _carriers(fn, enq, d):
+    """Elements of the enqueuing calls (ids in enq) one of whose arguments mentions local d or a reference / pointer local bound to it."""
+    al = {d}
+    changed = True
+    while changed:
+        changed = False
+        for n in fn.all_nodes():
+            if n.get('k') != 'decl':
+                continue
+            for v in n['vars']:
+                if v['d'] in al or not isinstance(v.get('init'), int) or not v['tC'].rstrip().endswith(('&', '*')):
+                    continue
+                r = fn.root_var(v['init'])
+                if r is not None and r[0] == 'var' and r[1] in al:
+                    al.add(v['d'])
+                    changed = True
+    return {_elem(fn, e) for e in enq
+            if any(fn.nodes[x].get('k') == 'var' and fn.nodes[x].get('d') in al for a in fn.nodes[e].get('args', []) if a is not None
+                   for x in fn.subtree(a))}
+
+
 def rule_push_precedes_work(fb, R, task_types):
     parser_h = _hier(fb, PARSER)
     memo = {}
@@ -347,7 +400,6 @@ def rule_push_precedes_work(fb, R, task_types):
             continue
         enq = {n['id'] for n in f.all_nodes() if _enqueuing(fb, f, n, U.BUF, memo)}
         enq_elems = {_elem(f, e) for e in enq}
-        loops_heads = set()
         for s in subs:
             n_sub += 1
             key = '%s#submit' % f.q
@@ -356,9 +408,7 @@ def rule_push_precedes_work(fb, R, task_types):
                 R.ok('O1-submit-future-enqueued-directly', key, f.loc(s['id']), 'argument of ' + f.nodes[tgt]['q'])
             elif isinstance(tgt, tuple):
                 d = tgt[1]
-                carriers = {_elem(f, e) for e in enq
-                            if any(f.nodes[x].get('k') == 'var' and f.nodes[x].get('d') == d for a in f.nodes[e].get('args', []) if a is not None
-                                   for x in f.subtree(a))}
+                carriers = _carriers(f, enq, d)
                 se = _elem(f, s['id'])
                 w = path_search(f, se, lambda e: _exit_t(e) or e == se, lambda e: e in carriers)
                 R.check(bool(carriers) and w is None, 'O1-submit-future-enqueued-directly', key, f.loc(s['id']),
@@ -479,28 +529,27 @@ def rule_reader_read(fb, R, reader=READER):
             continue
         Pe = _elem(fn, P['id'])
         rets = [n for n in fn.all_nodes() if n.get('k') == 'return' and 'sub' in n and fn.root_var(n['sub']) == B]
-        # end-of-data branch: at_end_of_data(B) true
-        eod_blocks = []
-        for b in fn.blocks.values():
-            if 'cond' in b and len(b['succs']) == 2:
-                c = fn.sn(b['cond'])
-                if c is not None and c.get('k') == 'call' and c.get('q') == NS + 'at_end_of_data' and c.get('args') and fn.root_var(c['args'][0]) == B:
-                    eod_blocks.append(b)
-                elif c is not None and c.get('k') == 'unop' and c['op'] == '!':
-                    s = fn.sn(c['sub'])
-                    if s is not None and s.get('q') == BUFFER + '::(conv)' and _recv_root(fn, s) == B:
-                        eod_blocks.append(b)
-        if len(eod_blocks) != 1:
-            R.broken('%s: expected one end-of-data test on the popped buffer, found %d' % (fn.q, len(eod_blocks)))
+        # end-of-data branch: at_end_of_data(B) true (or `!B`)
+        def is_eod(x):
+            if _is_call(x, NS + 'at_end_of_data') and x.get('args') and fn.root_var(x['args'][0]) == B:
+                return 1
+            if x is not None and x.get('q') == BUFFER + '::(conv)' and x.get('k') == 'call' and _recv_root(fn, x) == B:
+                return -1           # validity test: end of data is its negation
+            return 0
+        eods = []
+        for (blk, inner, t, f) in _cond_tests(fn, lambda x: is_eod(x) != 0):
+            eods.append((blk, inner, t, f) if is_eod(fn.nodes[inner]) > 0 else (blk, inner, f, t))
+        if len(eods) != 1:
+            R.broken('%s: expected one end-of-data test on the popped buffer, found %d' % (fn.q, len(eods)))
             continue
-        eb = eod_blocks[0]
+        eb, einner, e_true, _e_false = eods[0]
+        eod_sense = is_eod(fn.nodes[einner]) > 0
         eod_rets = set()
         data_rets = []
         for r in rets:
             if not fn.path_exists_avoiding(Pe, lambda e, r=r: e == r['id'], lambda e: False):
                 continue            # returns not reachable from the pop (back-buffer branch, `nothing` shortcut)
-            g = [(c, s) for (c, s, b) in guards_of(fn, r['id']) if b == eb['id'] and c == eb['cond']]
-            if g and g[0][1]:
+            if any(fn.strip(c) == einner and bool(sn) == eod_sense for (c, sn, _b) in guards_of(fn, r['id'])):
                 eod_rets.add(r['id'])
             else:
                 data_rets.append(r)
@@ -512,18 +561,13 @@ def rule_reader_read(fb, R, reader=READER):
                     e = fn.sn(n['rhs'])
                     if e is not None and e.get('vk') == 'enumconst' and e.get('q') != okay:
                         stores.add(_elem(fn, n['id']))
-            w = path_search(fn, eb['succs'][0], lambda e: e in eod_rets or _exit_t(e), lambda e: e in stores or _abnormal(fn, e),
-                            from_block_start=True) if eb['succs'][0] is not None else ['end-of-data edge pruned']
-            R.check(w is None and bool(eod_rets), 'R4-end-of-data-marks-eof', fn.q + '#end-of-data', fn.loc(eb['cond']),
+            w = path_search(fn, e_true, lambda e: e in eod_rets or _exit_t(e), lambda e: e in stores or _abnormal(fn, e),
+                            from_block_start=True) if e_true is not None else None
+            R.check(w is None and bool(eod_rets), 'R4-end-of-data-marks-eof', fn.q + '#end-of-data', fn.loc(einner),
                     'on the end-of-data branch of %s a path returns without storing a status other than %s into %s: a further read() would '
-                    'block on / read from the shut-down queue instead of failing: %s' % (fn.q, okay, sf, describe_path(fn, w if isinstance(w, list) and w and not isinstance(w[0], str) else None)))
+                    'block on / read from the shut-down queue instead of failing: %s' % (fn.q, okay, sf, describe_path(fn, w)))
         # ---- R3
-        tests = []
-        for b in fn.blocks.values():
-            if 'cond' in b and len(b['succs']) == 2:
-                c = fn.sn(b['cond'])
-                if _is_call(c, BUFFER + '::has_nested_buffers') and _recv_root(fn, c) == B:
-                    tests.append(b)
+        tests = _cond_tests(fn, lambda x: _is_call(x, BUFFER + '::has_nested_buffers') and _recv_root(fn, x) == B)
         key3 = fn.q + '#popped'
         if not data_rets:
             R.broken('%s: no return of the popped buffer outside the end-of-data branch' % fn.q)
@@ -532,20 +576,19 @@ def rule_reader_read(fb, R, reader=READER):
                   '%s returns the popped buffer without testing has_nested_buffers(): nested (older) buffers would be handed to the caller '
                   'inside the newest one / never iterated' % fn.q)
         else:
-            tconds = {_elem(fn, b['cond']) for b in tests}
+            tconds = {_elem(fn, inner) for (_blk, inner, _t, _f) in tests}
             dr = {r['id'] for r in data_rets}
             w = path_search(fn, Pe, lambda e: e in dr, lambda e: e in tconds or e in eod_rets)
             ok = R.check(w is None, 'R3-popped-nested-buffer-stashed', key3, fn.loc(P['id']),
                          'a path from the pop to a data return does not test has_nested_buffers() on the popped buffer: %s' % describe_path(fn, w))
-            for tb in tests if ok else []:
-                t_true = tb['succs'][0]
+            for (tb, tinner, t_true, _t_false) in tests if ok else []:
                 # S1: back buffer <- popped buffer, executed only when the test was true; S2: popped variable <- deepest nested buffer
                 # of the back buffer, after S1
                 s1 = None
                 for n in fn.all_nodes():
                     lhs, rhs = _assign_from(fn, n)
                     if lhs is not None and lhs[0] == 'field' and lhs[2] == bb and rhs is not None and fn.root_var(rhs) == B \
-                            and any(c == tb['cond'] and s for (c, s, _b) in guards_of(fn, n['id'])):
+                            and any(fn.strip(c) == tinner and sn for (c, sn, _b) in guards_of(fn, n['id'])):
                         s1 = n
                 s2 = []
                 for n in fn.all_nodes():
@@ -555,18 +598,19 @@ def rule_reader_read(fb, R, reader=READER):
                                 for x in fn.subtree(rhs)):
                         s2.append(n)
                 if s1 is None or not s2 or t_true is None:
-                    helper = [n for n in _region_calls(fn, tb, True) if n.get('rcls') == reader]
+                    helper = [n for n in fn.all_nodes() if n.get('k') == 'call' and n.get('rcls') == reader and
+                              any(fn.strip(c) == tinner and sn for (c, sn, _b) in guards_of(fn, n['id']))]
                     if helper:
                         R.broken('%s: nested-buffer handling was moved into %s; shape not modelled' % (fn.q, helper[0]['q']))
                     else:
-                        R.bad('R3-popped-nested-buffer-stashed', key3, fn.loc(tb['cond']),
+                        R.bad('R3-popped-nested-buffer-stashed', key3, fn.loc(tinner),
                               'when the popped buffer has nested buffers %s must move it to %s and hand out %s.get_last_nested(); that sequence '
                               'is missing' % (fn.q, bb, bb))
                     continue
                 s2e = {_elem(fn, n['id']) for n in s2}
                 w = path_search(fn, t_true, lambda e: e in dr or e == Pe or _exit_t(e), lambda e: e in s2e or _abnormal(fn, e),
                                 from_block_start=True)
-                R.check(w is None, 'R3-popped-nested-buffer-stashed', key3, fn.loc(tb['cond']),
+                R.check(w is None, 'R3-popped-nested-buffer-stashed', key3, fn.loc(tinner),
                         'a popped buffer with nested buffers can be returned / dropped without being moved to %s and unwound from its deepest '
                         'nested buffer: %s' % (bb, describe_path(fn, w)))
         # ---- R2b whole back buffer only without nested
@@ -679,6 +723,11 @@ def rule_wrapper_pop(fb, R):
         R.check(ok, 'R5-wrapper-pop-returns-future-value', key, fn.site, 'queue_wrapper::pop: %s' % why)
 
 
+def _calls_end(fn, cid):
+    """Expression contains a call of a function named end (resolved callee)."""
+    return any(fn.nodes[y].get('k') == 'call' and fn.nodes[y].get('q', '').rsplit('::', 1)[-1] == 'end' for y in fn.subtree(cid))
+
+
 def rule_iterator(fb, R):
     fns = [f for f in fb.fns(ITER + '::operator++') if f.has_cfg and not f.params]
     if not fns:
@@ -686,6 +735,9 @@ def rule_iterator(fb, R):
     for fn in fns:
         ups = [n for n in fn.all_nodes() if _is_call(n, ITER + '::update_buffer')]
         if not ups:
+            if not any(_is_call(n, ITER + '::operator++') for n in fn.all_nodes()):
+                R.bad('I1-iterator-refills-only-at-buffer-end', fn.q + '#update_buffer', fn.site,
+                      'InputIterator::operator++ never fetches the next buffer: iteration ends (or runs off the buffer) after the first one')
             continue            # postfix variants delegate
         incs = [n for n in fn.all_nodes() if n.get('k') == 'call' and n.get('op') == '++' and n.get('recv') is not None
                 and (fn.root_var(n['recv']) or ('',))[0] == 'field']
@@ -694,9 +746,8 @@ def rule_iterator(fb, R):
             for (c, sense, _b) in guards_of(fn, u['id']):
                 x = fn.sn(c)
                 if x is not None and x.get('k') == 'call' and x.get('op') in ('==', '!=') and ((x['op'] == '==') == bool(sense)):
-                    txt = fn.expr(c)
                     roots = {fn.root_var(a) for a in ([x.get('recv')] if x.get('recv') is not None else []) + list(x.get('args', [])) if a is not None}
-                    if any(r is not None and r[0] == 'field' for r in roots) and 'end()' in txt:
+                    if any(r is not None and r[0] == 'field' for r in roots) and _calls_end(fn, c):
                         ok = True
             dom = any(fn.elem_dominates(_elem(fn, i['id']), _elem(fn, u['id'])) for i in incs)
             R.check(ok and dom, 'I1-iterator-refills-only-at-buffer-end', fn.q + '#update_buffer', fn.loc(u['id']),
@@ -724,7 +775,7 @@ def rule_iterator_refill(fb, R):
             x = fn.sn(blk['cond'])
             if x is None or x.get('k') != 'call' or x.get('op') not in ('==', '!='):
                 continue
-            if 'end()' not in fn.expr(blk['cond']):
+            if not _calls_end(fn, blk['cond']):
                 continue
             cont, leave = (blk['succs'][0], blk['succs'][1]) if x['op'] == '==' else (blk['succs'][1], blk['succs'][0])
             again = cont is not None and path_search(fn, cont, lambda e: e == re_, lambda e: False, from_block_start=True) is not None
@@ -872,10 +923,24 @@ def rule_nested_buffers(fb, R):
                 link_old = n
             if lhs[0] == 'field' and src is not None and src[0] == 'var' and any(src[1] == v['d'] for v in olds):
                 link_this = n
+        for n in g.all_nodes():
+            # std::swap(old->m_next, m_next) is the same hand-over while old's link is still empty
+            if n.get('k') == 'call' and n.get('q', '').rsplit('::', 1)[-1] == 'swap' and len(n.get('args', [])) == 2 and link_old is None:
+                ms = [g.sn(a) for a in n['args']]
+                rs = [g.root_var(a) for a in n['args']]
+                if all(m is not None and m.get('k') == 'member' and m.get('name') == nf for m in ms) and \
+                        any(r is not None and r[0] == 'var' and any(r[1] == v['d'] for v in olds) for r in rs) and \
+                        any(r is not None and r[0] == 'field' for r in rs):
+                    link_old = n
         ok = link_old is not None and link_this is not None and g.elem_dominates(_elem(g, link_old['id']), _elem(g, link_this['id']))
         if ok:
-            w = path_search(g, g.entry, _exit_t, lambda e: e == _elem(g, link_this['id']) or _abnormal(g, e), from_block_start=True)
-            ok = w is None
+            # from the point where the old contents are split off, every normal path links them in
+            splits = [n for n in g.all_nodes() if n.get('k') == 'construct' and n.get('q') == BUFFER + '::(ctor)' and len(n.get('args', [])) >= 3]
+            starts = [_elem(g, n['id']) for n in splits]
+            w = None
+            for st in starts:
+                w = w or path_search(g, st, _exit_t, lambda e: e == _elem(g, link_this['id']) or _abnormal(g, e))
+            ok = bool(starts) and w is None
         R.check(ok, 'B2-grow-internal-chains-older', g.q + '#' + nf, g.site,
                 'grow_internal() must first hang the existing chain (%s) below the buffer it splits off and then link that buffer as %s; '
                 'otherwise previously nested buffers are destroyed (blocks lost) or the order of the chain changes' % (nf, nf))
@@ -991,9 +1056,7 @@ def rule_parser_flush(fb, R):
                 R.ok('F1-taken-nested-buffer-is-sent', key, fn.loc(n['id']))
             elif isinstance(tgt, tuple):
                 d = tgt[1]
-                carriers = {_elem(fn, e) for e in enq
-                            if any(fn.nodes[x].get('k') == 'var' and fn.nodes[x].get('d') == d for a in fn.nodes[e].get('args', []) if a is not None
-                                   for x in fn.subtree(a))}
+                carriers = _carriers(fn, enq, d)
                 w = path_search(fn, _elem(fn, n['id']), _exit_t, lambda e: e in carriers or _abnormal(fn, e))
                 R.check(bool(carriers) and w is None, 'F1-taken-nested-buffer-is-sent', key, fn.loc(n['id']),
                         'the buffer taken out with get_last_nested() is not sent to the output queue on every path (it is destroyed with '
@@ -1032,50 +1095,58 @@ def rule_parser_flush(fb, R):
                         takers.append((n, lhs[1]))
         for (n, d) in takers:
             enq = {m['id'] for m in fn.all_nodes() if _enqueuing(fb, fn, m, U.BUF, memo)}
-            carriers = {_elem(fn, e) for e in enq
-                        if any(fn.nodes[x].get('k') == 'var' and fn.nodes[x].get('d') == d for a in fn.nodes[e].get('args', []) if a is not None
-                               for x in fn.subtree(a))}
+            carriers = _carriers(fn, enq, d)
             w = path_search(fn, _elem(fn, n['id']), _exit_t, lambda e: e in carriers or _abnormal(fn, e))
             R.check(bool(carriers) and w is None, 'F4-swapped-out-buffer-is-sent', '%s#%s' % (fn.q, bf), fn.loc(n['id']),
                     'a local buffer takes over the contents of %s in %s but is not enqueued on every path: the objects collected so far are '
                     'destroyed with the local (lost): %s' % (bf, fn.q, describe_path(fn, w)))
-    # F2
+    # F3: the final flush = the method(s) of ParserWithBuffer that enqueue the buffer member itself
+    flushers = []
+    for fn in _dedupe(fb.functions):
+        if not fn.has_cfg or fn.cls != PWB or bf is None:
+            continue
+        sends = [n for n in fn.all_nodes() if _enqueuing(fb, fn, n, U.BUF, memo)
+                 and any((fn.root_var(a) or ('',))[0] == 'field' and fn.root_var(a)[2] == bf and not any(
+                     fn.nodes[y].get('k') == 'call' and fn.nodes[y].get('q', '').startswith(BUFFER + '::') for y in fn.subtree(a))
+                     for a in n.get('args', []) if a is not None)]
+        if not sends:
+            continue
+        flushers.append(fn)
+        key = fn.q + '#' + bf
+
+        def is_committed(x, fn=fn):
+            return _is_call(x, BUFFER + '::committed') and (_recv_root(fn, x) or ('',))[0] == 'field' and _recv_root(fn, x)[2] == bf
+        for s in sends:
+            extra = []
+            for (c, sense, _b) in guards_of(fn, s['id']):
+                x = fn.sn(c)
+                if x is not None and x.get('k') == 'binop' and ((x['op'] == '&&' and sense) or (x['op'] == '||' and not sense)):
+                    continue        # its operands are listed separately
+                if x is not None and x.get('k') == 'unop' and x['op'] == '!':
+                    continue        # likewise
+                if _implies_nonzero(fn, c, sense, is_committed):
+                    continue
+                extra.append('%s is %s' % (fn.expr(c), 'true' if sense else 'false'))
+            R.check(not extra, 'F3-final-flush-sends-whole-buffer', key, fn.loc(s['id']),
+                    '%s sends the parser buffer only under an additional condition (%s): committed objects (and the nested buffers hanging '
+                    'below them) can stay behind at the end of the file' % (fn.q, '; '.join(extra)))
+        R.check(len(sends) == 1, 'F3-final-flush-sends-whole-buffer', key, fn.loc(sends[0]['id']),
+                '%s enqueues the parser buffer %d times' % (fn.q, len(sends)))
+    if not flushers:
+        R.bad('F3-final-flush-sends-whole-buffer', '%s#%s' % (PWB, bf), rec.file + ':%d' % rec.line if rec is not None else PWB,
+              'no method of %s enqueues the buffer member %s: whatever the parser has collected when the input ends is never delivered' % (PWB, bf))
+    # F2: every run() of a subclass reaches the final flush on all normal paths
+    fq = {f.q for f in flushers}
     pwb_h = {r.q for r in fb.derived_from(PWB)}
     if not pwb_h:
         R.broken('no class derived from %s' % PWB)
     for cls in sorted(pwb_h):
         runs = [f for f in fb.fns(cls + '::run') if f.has_cfg]
         for run in runs:
-            w = must_call(fb, run, lambda f, n: n.get('q') == PWB + '::flush_final_buffer')
+            w = must_call(fb, run, lambda f, n: n.get('q') in fq) if fq else ['no final flush exists']
             R.check(w is None, 'F2-run-flushes-final-buffer', run.q, run.site,
-                    '%s can return normally without calling flush_final_buffer(): the objects still in the parser buffer (the end of the file) '
-                    'are never delivered: %s' % (run.q, describe_path(run, w) if w and not isinstance(w[0], str) else w))
-    # F3
-    for fn in _dedupe(fb.fns(PWB + '::flush_final_buffer')):
-        if not fn.has_cfg:
-            continue
-        rec = fb.record(PWB)
-        bf = _buffer_field(rec) if rec is not None else None
-        sends = [n for n in fn.all_nodes() if _enqueuing(fb, fn, n, U.BUF, memo)
-                 and any((fn.root_var(a) or ('',))[0] == 'field' and fn.root_var(a)[2] == bf for a in n.get('args', []) if a is not None)]
-        key = fn.q + '#' + str(bf)
-        if bf is None or len(sends) != 1:
-            R.bad('F3-final-flush-sends-whole-buffer', key, fn.site,
-                  'flush_final_buffer() must enqueue the parser buffer member exactly once (found %d enqueues of %s)' % (len(sends), bf))
-            continue
-        s = sends[0]
-        extra = []
-        for (c, sense, _b) in guards_of(fn, s['id']):
-            x = fn.sn(c)
-            txt = fn.expr(c)
-            if x is not None and x.get('k') == 'binop' and x['op'] in ('>', '!=') and sense and any(
-                    _is_call(fn.nodes[y], BUFFER + '::committed') for y in fn.subtree(c)) and \
-                    (fn.const_value(x['rhs']) == 0 or fn.const_value(x['lhs']) == 0):
-                continue
-            extra.append(txt)
-        R.check(not extra, 'F3-final-flush-sends-whole-buffer', key, fn.loc(s['id']),
-                'flush_final_buffer() sends the buffer only under an additional condition (%s): committed objects (and the nested buffers '
-                'hanging below them) can stay behind at the end of the file' % '; '.join(extra))
+                    '%s can return normally without the final flush (%s): the objects still in the parser buffer (the end of the file) '
+                    'are never delivered: %s' % (run.q, ', '.join(sorted(fq)) or 'missing', describe_path(run, w) if w and not isinstance(w[0], str) else w))
 
 
 # ================================================================================================ entity mask / metadata
@@ -1155,8 +1226,19 @@ def rule_commit(fb, R, files=DECODER_FILES, xml=NS + 'XMLParser'):
     overwritten / dropped when the buffer is handed over)."""
     callers = _callers(fb, files)
 
+    memo = {}
+
     def commits(f):
-        return {_elem(f, n['id']) for n in f.all_nodes() if _is_call(n, BUFFER + '::commit')}
+        """commit() calls, and calls of reader-side helpers that commit on every normal path"""
+        out = set()
+        for n in f.all_nodes():
+            if _is_call(n, BUFFER + '::commit'):
+                out.add(_elem(f, n['id']))
+            elif n.get('k') == 'call' and n.get('q', '').startswith(NS) and n.get('u'):
+                gs = [g for g in fb.by_usr.get(n['u'], []) if g.has_cfg]
+                if gs and all(must_call(fb, g, lambda _f, m: m.get('q') == BUFFER + '::commit', 2, memo) is None for g in gs):
+                    out.add(_elem(f, n['id']))
+        return out
 
     def uncommitted_path(f, start):
         cs = commits(f)
@@ -1284,17 +1366,22 @@ def rule_pbf_fields(fb, R, files=PBF_FILES):
                     (n['q'].rsplit('::', 1)[-1].startswith('get_') or n['q'].rsplit('::', 1)[-1] == 'skip') and on_v(n)]
             if not nexts:
                 continue
+            # the message object handed by reference to another function (extracted helper): that callee consumes
+            for n in fn.all_nodes():
+                if n.get('k') == 'call' and not n.get('q', '').startswith(('protozero::', 'std::')) and any(
+                        a is not None and (fn.sn(a) or {}).get('k') == 'var' and (fn.sn(a) or {}).get('d') == d for a in n.get('args', [])):
+                    cons.append(n)
             key = '%s#%s' % (fn.q, v['tC'].replace('protozero::pbf_message<', '').rstrip('>'))
             ne = {_elem(fn, n['id']) for n in nexts}
             ce = {_elem(fn, n['id']) for n in cons}
             ok = True
             for nx in nexts:
-                blk = _cond_block(fn, nx['id'])
-                if blk is None or blk['succs'][0] is None:
+                ct = _cond_tests(fn, lambda x, nx=nx: x.get('id') == nx['id'])
+                if len(ct) != 1 or ct[0][2] is None:
                     R.broken('%s: next() on %s is not a loop/branch condition' % (fn.q, v['name']))
                     ok = None
                     continue
-                w = path_search(fn, blk['succs'][0], lambda e: e in ne, lambda e: e in ce or _abnormal(fn, e),
+                w = path_search(fn, ct[0][2], lambda e: e in ne, lambda e: e in ce or _abnormal(fn, e),
                                 from_block_start=True)
                 if w is not None:
                     ok = False
@@ -1331,6 +1418,18 @@ def _is_content(n):
     if rc in ('osmium::OSMObject', 'osmium::Node', 'osmium::Way', 'osmium::Relation', 'osmium::Changeset', 'osmium::OSMEntity'):
         return name.startswith(('set_', 'add_'))
     return False
+
+
+def _is_meta(n):
+    return n.get('k') == 'call' and n.get('q', '').startswith('osmium::') and n['q'].rsplit('::', 1)[-1] in META_NAMES
+
+
+def _meta_of(fb, roots, depth=2):
+    out = set()
+    for (g, _p, _c) in U.reach(fb, roots, depth, stop=lambda f: not f.q.startswith('osmium::io::detail::')).values():
+        if g.q.startswith('osmium::io::detail::'):
+            out |= {n['q'] for n in g.all_nodes() if _is_meta(n)}
+    return out
 
 
 def _content_of(fb, roots, depth=2):
@@ -1384,21 +1483,97 @@ def rule_read_meta(fb, R, files=DECODER_FILES):
             key = '%s#read_meta@%s' % (fn.q, _case_name(fn, blk) or 'body')
             no_osm = [n for n in no if n['q'].startswith('osmium::') and n.get('k') == 'call']
             yes_osm = [n for n in yes if n['q'].startswith('osmium::') and n.get('k') == 'call']
+            my = _meta_of(fb, [g for n in yes_osm for g in U.bodies(fb, n)]) | {n['q'] for n in yes if _is_meta(n)}
+            mn = _meta_of(fb, [g for n in no_osm for g in U.bodies(fb, n)]) | {n['q'] for n in no if _is_meta(n)}
             if not no_osm:
                 # the `no` side only skips: the `yes` side must not create content
                 cont = _content_of(fb, [g for n in yes_osm for g in U.bodies(fb, n)]) | {n['q'] for n in yes if _is_content(n)}
-                R.check(not cont and bool(yes_osm), 'M4-read-meta-guards-only-metadata', key, fn.loc(blk['cond']),
+                R.check(not cont and bool(my), 'M4-read-meta-guards-only-metadata', key, fn.loc(blk['cond']),
                         'the read_meta::yes side in %s does more than decode metadata (%s): with read_meta::no that content would be missing'
-                        % (fn.q, ', '.join(sorted(cont)) or 'nothing is decoded'))
+                        % (fn.q, ', '.join(sorted(cont)) or 'no metadata is decoded there'))
             else:
                 cy = _content_of(fb, [g for n in yes_osm for g in U.bodies(fb, n)])
                 cn = _content_of(fb, [g for n in no_osm for g in U.bodies(fb, n)])
-                R.check(cy == cn and bool(cn), 'M4-read-meta-guards-only-metadata', key, fn.loc(blk['cond']),
-                        'the functions selected by read_meta in %s do not make the same object-content calls: only with metadata: %s; only '
-                        'without: %s' % (fn.q, sorted(cy - cn), sorted(cn - cy)))
+                ok = R.check(cy == cn and bool(cn), 'M4-read-meta-guards-only-metadata', key, fn.loc(blk['cond']),
+                             'the functions selected by read_meta in %s do not make the same object-content calls: only with metadata: %s; only '
+                             'without: %s' % (fn.q, sorted(cy - cn), sorted(cn - cy)))
+                if ok:
+                    R.check(bool(my) and not mn, 'M4-read-meta-guards-only-metadata', key, fn.loc(blk['cond']),
+                            'the read_meta::yes side of %s must be the one that decodes metadata (metadata calls with yes: %s; with no: %s)'
+                            % (fn.q, sorted(my) or 'none', sorted(mn) or 'none'))
             del label
     if nfound == 0:
         R.broken('no read_meta test found in the decoders')
+
+
+OPTION_TYPES = ('osmium::osm_entity_bits::type', 'osmium::io::read_meta')
+
+
+def _is_constant(fn, nid):
+    x = fn.sn(nid)
+    if x is None:
+        return True
+    if x.get('k') == 'var' and x.get('vk') == 'enumconst':
+        return True
+    if x.get('k') == 'lit':
+        return True
+    return x.get('k') not in ('var', 'member', 'call') and 'cv' in x
+
+
+OPTION_FILES = ('/io/reader.hpp', '/io/detail/input_format.hpp') + DECODER_FILES
+
+
+def rule_mask_forwarded(fb, R, files=OPTION_FILES):
+    """M6: the entity mask and the read_meta switch the user gave to the Reader reach the decoders unchanged: on the way they are
+    never replaced by a constant (constructor initialisers, constructor / call arguments, accessors)."""
+    n_inst = 0
+    for fn in _dedupe(fb.functions):
+        if not fn.has_cfg or not fn.file.endswith(files):
+            continue
+        rec = fb.record(fn.cls) if fn.cls else None
+        # constructor initialisers of option-typed members (classes that get the options handed in, i.e. have such a ctor parameter
+        # or a parameter object carrying them)
+        if fn.kind == 'ctor' and rec is not None and fn.cls != READER:
+            for n in fn.all_nodes():
+                if n.get('k') != 'init' or not n.get('name') or not isinstance(n.get('init'), int):
+                    continue
+                fld = rec.field(n['name'])
+                if fld is None or fld['tC'].replace('const ', '') not in OPTION_TYPES:
+                    continue
+                n_inst += 1
+                r = fn.root_var(n['init'])
+                ok = not _is_constant(fn, n['init']) and r is not None and r[0] == 'var' and any(p['d'] == r[1] for p in fn.params)
+                R.check(ok, 'M6-read-options-forwarded', '%s#%s' % (fn.q, n['name']), fn.loc(n['id']),
+                        '%s initialises %s with %s instead of the value handed to the constructor: the entity selection / metadata switch of '
+                        'the Reader would not reach the decoder' % (fn.q, n['name'], fn.expr(n['init'])))
+        # option-typed arguments handed on
+        for n in fn.all_nodes():
+            if n.get('k') not in ('call', 'construct') or 'q' not in n or n['q'].startswith(('std::', 'osmium::osm_entity_bits::operator')):
+                continue
+            if n.get('copymove'):
+                continue
+            for i, a in enumerate(n.get('args', [])):
+                if a is None:
+                    continue
+                x = fn.nodes[a]
+                if (x.get('t') or '').replace('const ', '') not in OPTION_TYPES:
+                    continue            # a defaulted option parameter counts as a constant: the caller's option is not handed on
+                if fn.cls == READER and n['q'].startswith(READER + '::'):
+                    continue        # option parsing of the variadic constructor (set_option / delegating constructor)
+                n_inst += 1
+                R.check(not _is_constant(fn, a), 'M6-read-options-forwarded', '%s#%s:%d' % (fn.q, n['q'], i), fn.loc(n['id']),
+                        '%s passes the constant %s to %s where the reader option must be handed on: the entity selection / metadata switch '
+                        'of the Reader would be ignored downstream' % (fn.q, fn.expr(a), n['q']))
+        # accessors: a parameterless method returning an option type returns the member of that type
+        if rec is not None and fn.kind == 'method' and not fn.params and fn.retC.replace('const ', '') in OPTION_TYPES:
+            flds = [f['name'] for f in rec.fields if f['tC'].replace('const ', '') == fn.retC.replace('const ', '')]
+            rets = [n for n in fn.all_nodes() if n.get('k') == 'return' and 'sub' in n]
+            n_inst += 1
+            ok = bool(rets) and all(fn.is_this_member(r['sub']) and (fn.sn(r['sub']) or {}).get('name') in flds for r in rets)
+            R.check(ok, 'M6-read-options-forwarded', fn.q + '#return', fn.site,
+                    '%s must return the %s member (%s)' % (fn.q, fn.retC, ', '.join(flds)))
+    if n_inst == 0:
+        R.broken('no hand-over of the entity mask / read_meta option found')
 
 
 def _case_name(fn, blk):
@@ -1417,7 +1592,7 @@ def _case_name(fn, blk):
 
 # ================================================================================================ driver
 
-def all_rules(fb, R, files=DECODER_FILES, pbf_files=PBF_FILES):
+def all_rules(fb, R, files=DECODER_FILES, pbf_files=PBF_FILES, opt_files=OPTION_FILES):
     rule_producers(fb, R)
     types = rule_pool_tasks(fb, R)
     rule_push_precedes_work(fb, R, types)
@@ -1434,6 +1609,7 @@ def all_rules(fb, R, files=DECODER_FILES, pbf_files=PBF_FILES):
     rule_commit(fb, R, files)
     rule_pbf_fields(fb, R, pbf_files)
     rule_read_meta(fb, R, files)
+    rule_mask_forwarded(fb, R, opt_files)
 
 
 def run(ctx):
@@ -1474,6 +1650,7 @@ def run(ctx):
     R.expect('M3-xml-builder-used-under-own-mask', 12)       # data_level_element 4, start_element 7, end_element 1
     R.expect('M4-read-meta-guards-only-metadata', 4)         # decode_node/way/relation Info, dense selection
     R.expect('M5-created-object-committed', 16)              # 12 local builders + 4 XML builder members
+    R.expect('M6-read-options-forwarded', 15)                # 6 ctor initialisers, 7 arguments handed on, 2 accessors
     R.expect('Q1-access-under-lock', 8)
     R.expect('Q2-insert-notifies-consumers', 1)
     R.expect('Q6-front-before-pop', 3)
@@ -1484,7 +1661,7 @@ POSITIVE = ('c05_reader.cpp',)
 
 
 def _selftest(fb, R):
-    all_rules(fb, R, files=POSITIVE, pbf_files=POSITIVE)
+    all_rules(fb, R, files=POSITIVE, pbf_files=POSITIVE, opt_files=POSITIVE)
 
 
 SELFTESTS = [(r, 'c05_reader.cpp', _selftest) for r in (
@@ -1495,4 +1672,4 @@ SELFTESTS = [(r, 'c05_reader.cpp', _selftest) for r in (
     'I1-iterator-skips-only-empty-buffers', 'B1-last-nested-walks-to-tail', 'B2-grow-internal-chains-older', 'B3-nested-buffer-never-empty',
     'B4-move-keeps-nested-chain', 'F1-taken-nested-buffer-is-sent', 'F2-run-flushes-final-buffer', 'F3-final-flush-sends-whole-buffer',
     'F4-swapped-out-buffer-is-sent', 'M1-object-creation-guarded-by-entity-mask', 'M2-pbf-field-consumed-once',
-    'M3-xml-builder-used-under-own-mask', 'M4-read-meta-guards-only-metadata', 'M5-created-object-committed')]
+    'M3-xml-builder-used-under-own-mask', 'M4-read-meta-guards-only-metadata', 'M5-created-object-committed', 'M6-read-options-forwarded')]
